@@ -105,8 +105,16 @@ func (r *TaskRunner) SetVariables(vars variables.Container) *TaskRunner {
 // Run run provided task -> highly modified from taskctl/runner/runner.go
 // TaskRunner first compiles task into linked list of Jobs, then passes those jobs to Executor
 func (r *TaskRunner) Run(t *task.Task) error {
-	// Keep track of running tasks for graceful shutdown and waiting until all tasks are canceled
+	// Keep track of running tasks for graceful shutdown and waiting until all tasks are canceled.
+	// The read lock orders the Add before the Wait of a concurrent Cancel (a WaitGroup must not be
+	// added to concurrently with Wait); after a Cancel no task is started anymore.
+	r.cancelMutex.RLock()
+	if r.canceling {
+		r.cancelMutex.RUnlock()
+		return r.ctx.Err()
+	}
 	r.wg.Add(1)
+	r.cancelMutex.RUnlock()
 	defer r.wg.Done()
 
 	if err := r.ctx.Err(); err != nil {
